@@ -45,6 +45,7 @@ import PyhamModel.Lemmas.SameHierarchy
 import PyhamModel.Lemmas.CheckerSound
 import PyhamModel.Lemmas.LineageCount
 import PyhamModel.Lemmas.FilterIdentical
+import PyhamModel.Lemmas.FilterFaults
 namespace Pyham.Props
 open Pyham
 
@@ -674,6 +675,16 @@ theorem C20_species_fault_rejected (T : STree) (nm : Naming) (inp : Input) (s : 
 theorem C20_group_fault_rejected (T : STree) (nm : Naming) (inp : Input)
     (h : faultyL (fun id => (inp.species.flatMap (fun s => s.genes.map (·.id))).contains id) inp.groups = true) :
     ∃ err, load T nm inp = .error err := Pyham.C20_group_fault_rejected T nm inp h
+/-- ... also when a filter is active: a fault (dangling reference, empty group) inside a SELECTED family makes the
+    filtered load fail -- nothing is skipped because a filter is in use -/
+theorem C20_filtered_fault_rejected (T : STree) (nm : Naming) (inp : Input) (f : Filter)
+    (hog : inp.groups.all isOgWithId = true) (gids hids : List String)
+    (hf : filterTops f inp.groups (filterGenes f inp.species, []) = .ok (gids, hids))
+    (hfault : faultyL (fun id => ((projectInput inp gids.contains hids).species.flatMap
+        (fun s => s.genes.map (·.id))).contains id) (projectInput inp gids.contains hids).groups = true) :
+    ∃ err, loadFiltered T nm inp f = .error err :=
+  Pyham.C20_filtered_fault_rejected T nm inp f hog gids hids hf hfault
+
 /-- the same in `species_resolve_mode="OMA"` (a clade named as species is attached to its only child that looks
     like an OMA species code): a species element whose resolved name is not exactly one leaf is rejected -/
 theorem C20_oma_species_fault_rejected (T : STree) (nm : Naming) (inp : Input) (s : Species)
